@@ -41,6 +41,9 @@ func presetFor(c *Ctx, id string, i int) *HistOpts {
 		o.Gen.InvalidPct = 35
 		o.Gen.MaxTx = 14
 	case "C10", "C11":
+		if id == "C10" {
+			o.RestartPermille = 120 // the quantifier of C10 includes restarts
+		}
 		w["stake"], w["delegate"], w["unstake"] = 25, 25, 25
 		o.Gen.Evidence, o.Gen.Absent = 80, 150
 		o.Gen.NVal = 2 + rng.Intn(5)
@@ -75,6 +78,32 @@ func presetFor(c *Ctx, id string, i int) *HistOpts {
 	if o.Gen.NVal > int(o.Params.MaxValidatorCnt) {
 		o.Gen.NVal = int(o.Params.MaxValidatorCnt)
 	}
+	// directed scenarios over the random filling (every second history)
+	if i%2 == 0 {
+		o.Gen.NReserved = 6
+		var sc []*scenario
+		switch id {
+		case "C02", "C11", "C12":
+			sc = append(sc, scenExitRestake(int64(3+rng.Intn(6))), scenForcedRelease(int64(4+rng.Intn(8))))
+		case "C10":
+			sc = append(sc, scenExitRestake(int64(3+rng.Intn(6))), scenJailAndEvidence(int64(6+rng.Intn(6))))
+		case "C13":
+			sc = append(sc, scenForcedRelease(int64(4+rng.Intn(8))), scenJailAndEvidence(int64(8+rng.Intn(6))))
+		case "C14":
+			sc = append(sc, scenJailAndEvidence(int64(4+rng.Intn(6))), scenTwinProposals(int64(3+rng.Intn(3)), false))
+		case "C15":
+			sc = append(sc, scenTwinProposals(int64(3+rng.Intn(5)), i%4 == 0), scenGasPriceChange(int64(12+rng.Intn(6))))
+		case "C16":
+			sc = append(sc, scenGasPriceChange(int64(3+rng.Intn(5))))
+		case "C04":
+			sc = append(sc, scenExitRestake(int64(3+rng.Intn(6))))
+		case "C17":
+			sc = nil
+		}
+		if len(sc) > 0 {
+			withScenarios(o, sc...)
+		}
+	}
 	return o
 }
 
@@ -82,7 +111,7 @@ func modelCheck(id string) checkFn {
 	return func(c *Ctx) {
 		c.rule = "generated block histories (all native transaction types, valid and single-defect invalid variants, signer/absentee/evidence patterns) executed on the real application; after every commit the full state dump is compared with a one-step reference model; a history is non-trivial and distinct when it has a distinct (genesis, block list) and at least one accepted state-changing transaction"
 		c.assumptions = []string{"genesis validators satisfy the validator limits", "min validator stake >= 1 unit", "the anchor validator never leaves (Tendermint cannot run with an empty validator set)"}
-		n := c.N(16, 200)
+		n := c.N(32, 400)
 		c.Parallel(n, 0, func(i int) {
 			o := presetFor(c, id, i)
 			if !c.Quick() {
